@@ -165,13 +165,15 @@ Proof. exact discard_oldest_identity. Qed.
 (* (F3) resize: after EVERY label sequence (resizes interleaved with dispatches, busy workers,
    completions, failures, kills and stopping workers, draining), whenever the factory is alive,
    no worker is busy and no worker actor is stopping with its supervision event still pending,
-   the pool is exactly the slots 0..n-1, none draining, for the last non-zero requested
-   size n (0 ignored, capped at 1_000_000; the initial size if none).  Holds for the model of the
+   the pool is exactly the slots 0..n-1, none draining, where n = f_size is the last non-zero
+   requested size (0 ignored, capped at 1_000_000; the initial size if none) -- spelled out as
+   target_after for histories without Calculate ticks (a tick asks the scripted capacity
+   controller, whose answer is a resize request like any other).  Holds for the model of the
    tree WITH fix F7; without it the statement is false (see ex_F7_scenario below and notes). *)
 Theorem C15_resize_converges : forall c ops,
   let s := state_after c (fst (init c 0)) ops in
   f_stopped s = false -> all_available (f_pool s) = true -> forallb w_alive (f_pool s) = true ->
-  f_size s = target_after (c_n0 c) ops
+  (forallb (fun o => negb (is_tick o)) ops = true -> f_size s = target_after (c_n0 c) ops)
   /\ (forall i, (exists w, find_w (f_pool s) i = Some w) <-> i < f_size s)
   /\ (forall i w, find_w (f_pool s) i = Some w -> w_drain w = false).
 Proof. exact resize_converges. Qed.
@@ -272,7 +274,7 @@ Check (C15_queue_bound_after_update : forall c L m K s ops,
 Check (C15_resize_converges : forall c ops,
   let s := state_after c (fst (init c 0)) ops in
   f_stopped s = false -> all_available (f_pool s) = true -> forallb w_alive (f_pool s) = true ->
-  f_size s = target_after (c_n0 c) ops
+  (forallb (fun o => negb (is_tick o)) ops = true -> f_size s = target_after (c_n0 c) ops)
   /\ (forall i, (exists w, find_w (f_pool s) i = Some w) <-> i < f_size s)
   /\ (forall i w, find_w (f_pool s) i = Some w -> w_drain w = false)).
 Check (C15_hooks_order : forall c ops,
@@ -314,7 +316,7 @@ Proof. vm_compute. reflexivity. Qed.
 
 (* factory examples *)
 Definition J (id : N) : job := mkJob id 0 3 true.
-Definition ex_fc : fcfg := mkFcfg RQueuer QDefault (Some (1, Oldest)) None 2 [].
+Definition ex_fc : fcfg := mkFcfg RQueuer QDefault (Some (1, Oldest)) None 2 [] ([], []).
 (* two workers busy, limit 1, oldest mode: jobs 3 and 4 are shed as 4 and 5 arrive *)
 Example ex_factory_oldest :
   factory_run ex_fc [FDispatch (J 1); FDispatch (J 2); FDispatch (J 3); FDispatch (J 4); FDispatch (J 5); FQuery]
@@ -325,7 +327,7 @@ Proof. vm_compute. reflexivity. Qed.
 (* the F7 scenario: both busy, shrink to 1, the draining worker 1 is killed, worker 0 finishes:
    the pool converges to [0] (on the tree before fix 5f6a017 the real factory kept [0; 1]) *)
 Example ex_F7_scenario :
-  factory_run (mkFcfg RRoundRobin QDefault None None 2 [])
+  factory_run (mkFcfg RRoundRobin QDefault None None 2 [] ([], []))
     [FDispatch (J 1); FDispatch (J 2); FResize 1; FKill 1; FFinishAll; FQuery]
   = [[EHook HStarted]; [EAccept 1; EStart 1 1 1]; [EAccept 2; EStart 2 0 1]; []; [ELost 1]; [EEnd 2];
      [EQuery (Some 0) (Some 1) (Some 0) [0]]].
@@ -345,11 +347,21 @@ Example ex_oracle_accepts_model :
 Proof. vm_compute. reflexivity. Qed.
 (* the oracle rejects the trace the unfixed tree produced for the F7 scenario (live = [0; 1]) *)
 Example ex_oracle_rejects_F7_trace :
-  ck_resize (mkFcfg RRoundRobin QDefault None None 2 [])
+  ck_resize (mkFcfg RRoundRobin QDefault None None 2 [] ([], []))
     [([FSettle], [EHook HStarted]);
      ([FDispatch (J 1); FDispatch (J 2); FSettle], [EStart 1 1 1; EStart 2 0 1; EAccept 1; EAccept 2]);
      ([FResize 1; FSettle], []); ([FKill 1; FSettle], [ELost 1]); ([FFinishAll; FSettle], [EEnd 2]);
      ([FQuery; FSettle], [EQuery (Some 0) (Some 1) (Some 0) [0; 1]])] = false.
+Proof. vm_compute. reflexivity. Qed.
+
+(* a Calculate tick: the capacity controller asks for 3 workers, then (second tick) for 1; a Dynamic
+   limit goes 2 -> 0 at the first DoPings *)
+Example ex_tick :
+  factory_run (mkFcfg RQueuer QDefault (Some (2, Newest)) None 1 [] ([3; 1], [0]))
+    [FDispatch (J 1); FDispatch (J 2); FTick; FQuery; FDispatch (J 3); FTick; FFinishAll; FQuery]
+  = [[EHook HStarted]; [EAccept 1; EStart 1 0 1]; [EAccept 2]; [EStart 2 1 1];
+     [EQuery (Some 0) (Some 1) (Some 2) [0; 1; 2]]; [EAccept 3; EStart 3 2 1]; [];
+     [EEnd 1; EEnd 2; EEnd 3]; [EQuery (Some 0) (Some 1) (Some 0) [0]]].
 Proof. vm_compute. reflexivity. Qed.
 
 Print Assumptions C15_bucket_cap.
